@@ -66,10 +66,13 @@ def check_ans_sizes(ctx, F):
     src = None
     n_ext = 0
     for p in pi or []:
-        if p.end != 'return' or rules.ret_shape(p.ret)[0] != 'Ok':
+        # the success exit: `Ok(bulk)` after `?`, or the extend's own Result mapped to the buffer (`.map(|()| self.bulk)`)
+        mapped = p.ret is not None and p.ret[0] == 'call' and str(p.ret[1]).endswith(('Result::<T, E>::map', 'Result::<T, E>::and_then'))
+        if p.end != 'return' or not (rules.ret_shape(p.ret)[0] == 'Ok' or mapped):
             continue
         for e in p.events:
-            if e['kind'] == 'call' and e.get('uid') is not None:
+            if e['kind'] == 'call' and e.get('uid') is not None and any(pth[:1] == (1,) for pth in e['mut_paths']):
+                # only calls that can modify the coder count (a trailing `.map(|()| self.bulk)` on the result does not)
                 n_ext += 1
                 if e['callee'].endswith('WriteWords::extend_from_iter') and e['args'][0][0] == 'ref' and e['args'][0][1] == (1, ('f', 'bulk')):
                     src = e['args'][1]
